@@ -154,6 +154,36 @@ def source_call(v):
             return None, False
 
 
+def _adapter_on_known(ck, argv):
+    """Result of a std Option/Result adapter when its receiver is an aggregate of the variant the adapter leaves alone."""
+    if not argv or argv[0][0] != "agg" or not ck.startswith(("core::option::Option::", "core::result::Result::")):
+        return None
+    x, var, n = argv[0], argv[0][2], short(ck)
+    pay = x[3][0] if x[3] else None
+    if n == "map_err" and var == "Ok":
+        return x
+    if n in ("map", "and_then") and var in ("Err", "None"):
+        return x
+    if n in ("unwrap_or", "unwrap_or_else", "unwrap_or_default") and var in ("Some", "Ok") and pay is not None:
+        return pay
+    if n == "unwrap_or" and var == "None" and len(argv) > 1:
+        return argv[1]
+    if n == "ok_or" and len(argv) > 1:
+        if var == "Some" and pay is not None:
+            return ("agg", "core::result::Result", "Ok", (pay,))
+        if var == "None":
+            return ("agg", "core::result::Result", "Err", (argv[1],))
+    if n == "ok_or_else" and var == "Some" and pay is not None:
+        return ("agg", "core::result::Result", "Ok", (pay,))
+    if n in ("or", "or_else") and var in ("Some", "Ok"):
+        return x
+    return None
+
+
+def mentions_local(v):
+    return any(x[0] in ("local", "unknown") for x in subvalues(v))
+
+
 def subvalues(v):
     yield v
     k = v[0]
@@ -411,11 +441,18 @@ class Explorer:
                 if v[0] == "agg" and pending_variant is None and e[1] < len(v[3]):
                     v = v[3][e[1]]
                     continue
+                if v[0] == "closure" and pending_variant is None and len(v) > 2 and e[1] < len(v[2]):
+                    v = v[2][e[1]]          # an upvar of a closure whose body was expanded in place: the captured value
+                    continue
                 if pending_variant is not None:
                     # branch(..) payloads
                     if v[0] == "call" and v[1].endswith(BRANCH):
                         if pending_variant == "Continue":
-                            v = ("okval", v[2][0])
+                            inner = v[2][0]
+                            if inner[0] == "agg" and inner[2] in ("Ok", "Some") and inner[3]:
+                                v = inner[3][0]       # `Ok(x)?` is x
+                            else:
+                                v = ("okval", inner)
                             pending_variant = None
                             continue
                         if pending_variant == "Break":
@@ -703,8 +740,14 @@ class Explorer:
                 argv = tuple(self.eval_operand(env, a) for a in t.args)
                 ck = flow.into_to_from(t)
                 self._scan_codes(p, rb, argv, short(ck))
+                acc = self._accessor(ck, argv)
+                simp = _adapter_on_known(ck, argv)
                 if flow.is_transparent(t) and argv:
                     val = argv[0]
+                elif simp is not None:
+                    val = simp          # an adapter applied to a value whose variant is written out: `Ok(x).map_err(f)` is `Ok(x)`
+                elif acc is not None:
+                    val = acc       # a workspace function that only projects / rewraps its argument (`fn into_inner(self) -> u64 { self.0 }`)
                 elif flow.lossless_cast(t) and len(argv) == 1:
                     val = ("cast", argv[0], flow.lossless_cast(t))       # u64::from(x) is `x as u64`
                 elif ck.endswith(FROM_RESIDUAL) and argv and argv[0][0] == "residual":
@@ -762,6 +805,36 @@ class Explorer:
                 bb = tb
                 continue
             raise RuntimeError("unknown terminator " + k)
+
+    _ACC = {}
+
+    def _accessor(self, ck, argv):
+        """Value of a call to a tiny workspace function without calls or branches (an accessor, a newtype wrapper), in terms of the
+        caller's argument values; None for anything else. `x.into_inner()` and `x.0` are then the same value."""
+        if self.depth >= 3 or not ck or not ck.startswith(("h3", "<h3")):
+            return None
+        key = (id(self.prog), ck)
+        if key not in Explorer._ACC:
+            b = self.prog.one(ck)
+            # by-value arguments only: a value that was moved or copied in cannot be mutated behind the summary's back
+            ok = b is not None and not b.coroutine and "{closure" not in ck and len(b.blocks) <= 2 and b.arg_count >= 1 and \
+                all(not b.locals[i + 1]["ty"].startswith(("&", "*")) for i in range(b.arg_count)) and \
+                all(blk.term.t in ("return", "goto", "unreachable", "resume") for blk in b.blocks) and \
+                all(s.s == "assign" and s.rv.rv in ("use", "ref", "cast", "aggregate", "rawptr") for blk in b.blocks if not blk.cleanup for s in blk.stmts)
+            Explorer._ACC[key] = b if ok else None
+        b = Explorer._ACC[key]
+        if b is None or b.arg_count != len(argv):
+            return None
+        sub = Explorer(self.prog, b, max_paths=4, max_visits=1, depth=self.depth + 1, bb_base=700000)
+        try:
+            qs = sub.paths(env={i + 1: a for i, a in enumerate(argv)})
+        except PathExplosion:
+            return None
+        if len(qs) == 1 and qs[0].end == "return" and qs[0].ret is not None and not [e for e in qs[0].events if e[0] in ("call", "store", "assert")]:
+            r = qs[0].ret
+            if not mentions_local(r):
+                return r
+        return None
 
     def _count(self):
         self.npaths += 1
